@@ -535,8 +535,14 @@ class Sib:
         e = self.E("noci", "_get_trans_rdm1_single_det")
         sw = swap_map([(sym("sd_0_up"), sym("sd_0_dn")), (sym("sd_1_up"), sym("sd_1_dn")), (nelec(0), nelec(1))])
         r = e.result
+        c0, c1 = getitem(r, const(0)), getitem(r, const(1))
+        if r is not None and r.op == "dict" and len(r.args) == 4 and all(k_.op == "const" for k_ in r.args[0::2]):
+            # the two blocks returned under string keys: the exchange is an involution, so their order is immaterial
+            c0, c1 = r.args[1], r.args[3]
+        elif r is not None and r.op == "record" and len(r.args) == 3:
+            c0, c1 = r.args[1], r.args[2]
         self.cmp("SYM-1", "noci._get_trans_rdm1_single_det: the down-spin transition density mirrors the up-spin one",
-                 getitem(r, const(0)), getitem(r, const(1)), e.fi, None, hyp_b=sw,
+                 c0, c1, e.fi, None, hyp_b=sw,
                  what="component 0 with up <-> dn == component 1")
 
     def noci_rdm1_weights(self):
@@ -623,20 +629,57 @@ class Sib:
         self.cmp("SIB-2", "cisd_faster: numerator of the energy == cisd's", _numerator(en.result), _numerator(enf.result),
                  enf.fi, optional=True)
 
+    def helper_in_caller_terms(self, cls: str, helper: str, caller: str) -> Optional[T]:
+        """The result of the private per-determinant helper with its parameters replaced by what `caller` passes for
+        them (through vmap or directly; a record argument is taken apart into its fields).  The helper's parameter
+        list is private to the class -- its order, its names and whether several arrays travel as one record are free
+        -- so the roles of its inputs are read off the one place that fixes them: the call.  None: no such call."""
+        from ..model import bind_call
+        from ..symex import call_parts, func_name, match_vmap, subterms, substitute, transparent
+        h, c = self.E(cls, helper), self.E(cls, caller)
+        site = None
+        for x in subterms(c.result):
+            if x.op != "call":
+                continue
+            vm = match_vmap(x)
+            f, pos, kws = (vm[0], list(vm[2]), {}) if vm is not None else (transparent(call_parts(x)[0]), list(call_parts(x)[1]), call_parts(x)[2])
+            while f.op == "call" and func_name(f) == "jax.vmap" and call_parts(f)[1]:
+                f = transparent(call_parts(f)[1][0])
+            if f.op == "attr" and f.args[1] == helper and f.args[0] is sym("self"):
+                site = (pos, kws)
+                break
+        if site is None:
+            return None
+        pos, kws = site
+        ok, _, mapping = bind_call(h.fi, len(pos), list(kws), True)
+        if not ok:
+            return None
+        sub: Dict[T, T] = {}
+        for pname, m in mapping.items():
+            actual = pos[m[1]] if m[0] == "pos" else kws[m[1]]
+            P = sym(pname)
+            sub[P] = actual
+            if actual.op == "record":
+                names = self.ev.record_fields(actual.args[0]) or []
+                for i, (fname, v) in enumerate(zip(names, actual.args[1:])):
+                    sub[mk("attr", P, fname)] = v
+                    sub[getitem(P, const(i))] = v
+        return substitute(h.result, sub)
+
     def noci_vs_uhf(self):
         nd = self.E("noci", "_calc_energy_single_det")
         uh = self.E("uhf", "_calc_energy")
+        r = self.helper_in_caller_terms("noci", "_calc_energy_single_det", "_calc_energy")
+        if r is None:
+            self.ctx.rep.note("noci._calc_energy: the per-determinant energy call was not identified; the uhf sibling rule does not apply")
+            return
+        dets = key(WD, "ci_coeffs_dets", 1)
         sl = lambda t, n: getitem(t, mk("tuple", mk("slice", NONE, NONE, NONE), mk("slice", NONE, n, NONE)))
-        hyp_n = {sl(sym("trial_up"), nelec(0)): sym("§mo_up"), sl(sym("trial_dn"), nelec(1)): sym("§mo_dn"),
-                 sym("h0"): sym("§h0"), sym("rot_h1_up"): sym("§h1u"), sym("rot_h1_dn"): sym("§h1d"),
-                 sym("rot_chol_up"): sym("§cu"), sym("rot_chol_dn"): sym("§cd")}
-        hyp_u = {key(WD, "mo_coeff", 0): sym("§mo_up"), key(WD, "mo_coeff", 1): sym("§mo_dn"),
-                 key(HD, "h0"): sym("§h0"), key(HD, "rot_h1", 0): sym("§h1u"),
-                 key(HD, "rot_h1", 1): sym("§h1d"), key(HD, "rot_chol", 0): sym("§cu"),
-                 key(HD, "rot_chol", 1): sym("§cd")}
+        hyp_n = {sl(getitem(dets, const(0)), nelec(0)): sym("§mo_up"), sl(getitem(dets, const(1)), nelec(1)): sym("§mo_dn")}
+        hyp_u = {key(WD, "mo_coeff", 0): sym("§mo_up"), key(WD, "mo_coeff", 1): sym("§mo_dn")}
         self.cmp("SIB-2", "noci._calc_energy_single_det == uhf._calc_energy under parameter correspondence",
-                 nd.result, uh.result, nd.fi, hyp_n, hyp_b=hyp_u, ignore_conj=True,
-                 what="real NOCI determinants")
+                 r, uh.result, nd.fi, hyp_n, hyp_b=hyp_u, ignore_conj=True,
+                 what="real NOCI determinants; the helper's parameters as noci._calc_energy passes them")
 
     # ------------------------------------------------------ spin-exchange SYM-1
     def uhf_spin_symmetry(self, meth: str):
@@ -648,15 +691,18 @@ class Sib:
                  None, hyp_b=sw, what="up <-> dn in walkers, orbitals and rotated integrals")
 
     def noci_spin_symmetry(self):
-        nd = self.E("noci", "_calc_energy_single_det")
-        sw = swap_map([(sym("walker_up"), sym("walker_dn")), (sym("trial_up"), sym("trial_dn")),
-                       (sym("rot_h1_up"), sym("rot_h1_dn")), (sym("rot_chol_up"), sym("rot_chol_dn")),
+        dets = key(WD, "ci_coeffs_dets", 1)
+        sw = swap_map([(sym("walker_up"), sym("walker_dn")), (getitem(dets, const(0)), getitem(dets, const(1))),
+                       (key(HD, "rot_h1", 0), key(HD, "rot_h1", 1)), (key(HD, "rot_chol", 0), key(HD, "rot_chol", 1)),
                        (nelec(0), nelec(1))])
-        self.cmp("SYM-1", "noci._calc_energy_single_det: invariant under exchanging the spin labels",
-                 nd.result, nd.result, nd.fi, None, hyp_b=sw)
-        ov = self.E("noci", "_calc_overlap_single_det")
-        self.cmp("SYM-1", "noci._calc_overlap_single_det: invariant under exchanging the spin labels",
-                 ov.result, ov.result, ov.fi, None, hyp_b=sw)
+        for helper, caller in (("_calc_energy_single_det", "_calc_energy"), ("_calc_overlap_single_det", "_calc_overlap")):
+            nd = self.E("noci", helper)
+            r = self.helper_in_caller_terms("noci", helper, caller)
+            if r is None:
+                self.ctx.rep.note(f"noci.{caller}: the call of {helper} was not identified; the spin-exchange rule does not apply")
+                continue
+            self.cmp("SYM-1", f"noci.{helper}: invariant under exchanging the spin labels",
+                     r, r, nd.fi, None, hyp_b=sw, what=f"inputs as noci.{caller} passes them")
 
     def ucisd_spin_symmetry(self, meth: str):
         ue = self.E("ucisd", meth)
